@@ -452,6 +452,25 @@ pub fn full_1d_sweeps(rep: &mut Report, roundtrip: bool) {
         one::<V5>(rep, &p, || format!("v5 UNSUBACK with {} reason codes", n), roundtrip);
         let p = v3::Packet::Suback(v3::Suback { pid, topics: (0..n).map(|i| if i % 7 == 0 { v3::SubscribeReturnCode::Failure } else { v3::SubscribeReturnCode::MaxLevel2 }).collect() });
         one::<V3>(rep, &p, || format!("v3 SUBACK with {} return codes", n), roundtrip);
+        if n > 0 {
+            // RUNS: n identical codes followed by a different one, and a different one followed by n identical
+            // (a run-length or block writer has its edge where a run ENDS)
+            let mut run5: Vec<v5::SubscribeReasonCode> = vec![v5::SubscribeReasonCode::GrantedQoS1; n];
+            run5.push(v5::SubscribeReasonCode::NotAuthorized);
+            let p = v5::Packet::Suback(v5::Suback { pid, properties: Default::default(), topics: run5.clone() });
+            one::<V5>(rep, &p, || format!("v5 SUBACK with a run of {} equal reason codes followed by a different one", n), roundtrip);
+            run5.rotate_right(1);
+            let p = v5::Packet::Suback(v5::Suback { pid, properties: Default::default(), topics: run5 });
+            one::<V5>(rep, &p, || format!("v5 SUBACK with one reason code followed by a run of {} equal ones", n), roundtrip);
+            let mut run3: Vec<v3::SubscribeReturnCode> = vec![v3::SubscribeReturnCode::MaxLevel1; n];
+            run3.push(v3::SubscribeReturnCode::Failure);
+            let p = v3::Packet::Suback(v3::Suback { pid, topics: run3 });
+            one::<V3>(rep, &p, || format!("v3 SUBACK with a run of {} equal return codes followed by a different one", n), roundtrip);
+            let mut runu: Vec<v5::UnsubscribeReasonCode> = vec![v5::UnsubscribeReasonCode::Success; n];
+            runu.push(v5::UnsubscribeReasonCode::NoSubscriptionExisted);
+            let p = v5::Packet::Unsuback(v5::Unsuback { pid, properties: Default::default(), topics: runu });
+            one::<V5>(rep, &p, || format!("v5 UNSUBACK with a run of {} equal reason codes followed by a different one", n), roundtrip);
+        }
     }
     let f = TopicFilter::try_from("a/+".to_string()).unwrap();
     let up = v5::UserProperty { name: Arc::new("k".into()), value: Arc::new("v".into()) };
